@@ -45,6 +45,7 @@ func init() {
 			add("rot/bytewise", c06Alpha, d2, nil)
 			add("flushy/bytewise", emptyKeyAlpha, d1, emptyKeyProbes)
 			add("deep/bytewise", emptyKeyAlpha, d2, emptyKeyProbes)
+			add("mixed/bytewise", shapeAlpha, d2, shapeProbes)
 			add("bigbatch/bytewise", c06Alpha, d2, nil)
 			for _, k := range []string{"shortlex", "revtail", "xormap", "lazy"} {
 				a, p := cmpAlpha(k)
